@@ -6,7 +6,7 @@
 From CSL Require Import Base.Prelude Cbor.Head Cbor.Item Cbor.ItemProofs Codec.Schema Codec.SchemaProofs
   Ledger.Schemas Ledger.SchemasProofs
   Cddl.Rules Cddl.Validator Cddl.ValidatorProofs Cddl.ConwayCddl Cddl.ToItem Cddl.ToItemProofs Cddl.CanonProofs
-  Cddl.Tables Cddl.Pairing.
+  Cddl.Tables Cddl.Pairing Cddl.Conforms Cddl.ConformsProofs Cddl.KnownClass.
 Local Open Scope N_scope.
 
 (* the independent reader parses the emitted bytes (one item, nothing left over) into exactly the tree [to_item s v] *)
@@ -66,12 +66,42 @@ Theorem C03_fuel_monotone : forall e f g r it, (f <= g)%nat -> cddl_ok e f r it 
 Proof. exact cddl_ok_fuel_mono. Qed.
 Print Assumptions C03_fuel_monotone.
 
-(* the full-strength statement, kept visible: a boolean structural comparison [refines] between schema and rule such
-   that ONE generic proof gives conformance of every schema-valid value.  NOT proved: the implementation schemas are
-   wider than the Conway rules exactly where the API admits CDDL-invalid values (u32 indices, zero quantities, unit
-   intervals without side conditions), and lower bounds (positive_coin, denominator > 0) are not expressible in the
-   schema language, so [refines] would be false on the transaction-level pairs; what is proved instead is
-   C03_conforms_partial below. *)
+(* (4) THE CONFORMANCE THEOREM, in value-dependent form.  [conforms e fuel s r v] (Cddl/Conforms.v) is a decidable
+   predicate on TYPED values: it compares the structure of schema and rule along v and checks v's leaf ranges (integer
+   ranges, sizes, non-emptiness, chosen alternative, rational side conditions, address shape); it never looks at bytes.
+   ONE generic proof (induction on fuel, case analysis over the schema language) shows that such a value is emitted as
+   bytes the independent validator accepts.  This is the property's "typed values accepted by validating
+   constructors": the values the Conway CDDL can represent at all. *)
+Theorem C03_conforms : forall e fuel s r v, wfs s = true -> wfv s v = true ->
+  conforms e fuel s r v = true -> cddl_ok_bytes_fuel e fuel r (enc s v) = true.
+Proof. exact conforms_bytes_sound. Qed.
+Print Assumptions C03_conforms.
+
+(* the same with the judge's own fuel, on the Conway environment *)
+Theorem C03_conforms_conway : forall s r v, wfs s = true -> wfv s v = true ->
+  conforms_bytes conway_env s r v = true -> cddl_ok_bytes conway_env r (enc s v) = true.
+Proof. intros s r v Hs Hv Hc. unfold cddl_ok_bytes. apply conforms_bytes_sound; assumption. Qed.
+Print Assumptions C03_conforms_conway.
+
+(* the known finding: a mint quantity accepted by MintAssets::insert / new_from_entry (non-zero, |q| < 2^64) whose
+   emitted bytes the Conway rule rejects (nonZeroInt64), and exactly the class the check lists: the bytes conform once
+   mint quantities are relaxed to any non-zero integer *)
+Theorem C03_mint_int64_refuted : exists v,
+  wfv Mint v = true /\
+  cddl_ok_bytes conway_env (RMapOf 0 policy_id (RMapOf 1 asset_name nonZeroInt64)) (enc Mint v) = false /\
+  judge_class (RMapOf 0 policy_id (RMapOf 1 asset_name nonZeroInt64)) (enc Mint v) = 1.
+Proof.
+  exists (VMap [(VBytes (repeat 5 28), VMap [(VBytes [65; 66], VAlt 0 (VNat 9223372036854775808))])]).
+  vm_compute. repeat split.
+Qed.
+Print Assumptions C03_mint_int64_refuted.
+
+(* the value-INDEPENDENT form of the statement, kept visible: a boolean structural comparison [refines] between schema
+   and rule alone, true on all pairs.  NOT proved, and not provable for these schemas: they are wider than the Conway
+   rules exactly where the API admits CDDL-invalid values (u32 indices, Int vs int64), and lower bounds (positive_coin,
+   denominator > 0, [+ a] on a collection whose non-emptiness comes from the enclosing optional field) are not
+   expressible in the schema language, so [refines] is false on every transaction-level pair.  C03_conforms is the
+   same statement with the leaf conditions read off the value instead of the schema. *)
 Definition C03_full : Prop :=
   exists refines : schema -> rule -> bool,
     (forall s r v, refines s r = true -> wfs s = true -> wfv s v = true ->
@@ -82,7 +112,8 @@ Definition C03_full : Prop :=
    (a) the independent reader parses the emitted bytes to to_item s v, (b) they are in canonical form with the two
    listed exceptions, (c) every set site is tag 258 + distinct items, (d) conformance to the rule reduces to matching
    the tree, and (e) the key/arity/tag tables of implementation and CDDL agree.
-   Missing for C03_full: the generic matching proof "schema structure + leaf ranges => cddl_ok on to_item". *)
+   Together with C03_conforms (matching of the tree from the typed value's leaf conditions) this is the whole property
+   on the model side; C03_full differs only in asking for a value-independent comparison. *)
 Theorem C03_conforms_partial : forall s v, wfs s = true -> wfv s v = true ->
   parse_exact (enc s v) = Ok (to_item s v) /\
   canon_bytes true true (enc s v) = true /\ heads_shortest (enc s v) = true /\ chunks_strict (to_item s v) = true /\
@@ -110,7 +141,8 @@ Definition ex_body : val :=
 Example C03_premises_satisfiable :
   wfs (TransactionBody 1) = true /\ wfv (TransactionBody 1) ex_body = true /\
   cddl_ok_bytes conway_env transaction_body (enc (TransactionBody 1) ex_body) = true /\
-  firstn 6 (enc (TransactionBody 1) ex_body) = [164; 0; 217; 1; 2; 130].
+  firstn 6 (enc (TransactionBody 1) ex_body) = [164; 0; 217; 1; 2; 130] /\
+  conforms_bytes conway_env (TransactionBody 1) transaction_body ex_body = true.
 Proof. split; [apply wf_TransactionBody|]. vm_compute. repeat split. Qed.
 
 (* the validator is not vacuous: the same body with input index 65536 (uint .size 2 violated), without the required
